@@ -193,13 +193,76 @@ def extract(repo):
         return 1 if 'unknown_discriminant' in k.group(1) else 0
     grab('protoNamedVariantRejectsUnknown', named_variant_rejects_unknown)
     def varint_max():
+        # the cap of unpack_slow and the largest unrolled size (the ten-byte limit of a varint);
+        # the boundary below which `unpack` takes the slow decoder is extracted on its own
+        # (varintFastMinLen) and tied by `10 <= varintFastMinLen`
         m = re.search(r'let bytes: usize = if buf\.len\(\) < (\d+) \{ buf\.len\(\) \} else \{ (\d+) \};', vi)
-        k = re.search(r'if buf\.len\(\) < (\d+) \{\s*return Self::unpack_slow\(buf\);', vi)
         sizes = [int(x) for x in re.findall(r'Self::unpack_size::<(\d+)>\(buf\)', vi)]
-        if not m or not k or len({m.group(1), m.group(2), k.group(1)}) != 1 or sizes != list(range(1, int(k.group(1)) + 1)):
+        if not m or not sizes or m.group(1) != m.group(2) or sizes != list(range(1, int(m.group(2)) + 1)):
             raise Missing('varint length limit')
-        return int(k.group(1))
+        return int(m.group(2))
     grab('varintMaxBytes', varint_max)
+    # the shape of `<v64 as Unpackable>::unpack`, `unpack_slow` and `unpack_size` (Blue.Varint)
+    def unpack_body():
+        m = re.search(r"impl<'a> Unpackable<'a> for v64 \{.*?\n\}\n", vi, re.S)
+        if not m:
+            raise Missing('Unpackable for v64')
+        return m.group(0)
+    def varint_fast_min_len():
+        k = re.findall(r'if buf\.len\(\) < (\d+) \{\s*return Self::unpack_slow\(buf\);\s*\}', unpack_body())
+        if len(k) != 1:
+            raise Missing('slow-path boundary of v64::unpack')
+        return int(k[0])
+    grab('varintFastMinLen', varint_fast_min_len)
+    def varint_slow_cap():
+        m = re.findall(r'let bytes: usize = if buf\.len\(\) < (\d+) \{ buf\.len\(\) \} else \{ (\d+) \};', vi)
+        if len(m) != 1:
+            raise Missing('unpack_slow byte cap')
+        return [int(m[0][0]), int(m[0][1])]
+    grab('varintSlowCap', varint_slow_cap)
+    def varint_arms():
+        body = unpack_body()
+        arms = re.findall(r'if buf\[(\d+)\] < (\d+) \{\s*Self::unpack_size::<(\d+)>\(buf\)\s*\}', body)
+        # the chain must be exactly: boundary test, the arms, the overflow error
+        chain = re.sub(r'\s+', ' ', body.split('return Self::unpack_slow(buf);', 1)[-1])
+        want = ' } ' + ' else '.join('if buf[%s] < %s { Self::unpack_size::<%s>(buf) }' % a for a in arms) \
+               + ' else { Err(varint_overflow(buf.len())) } } } '
+        if not arms or chain != want:
+            raise Missing('unrolled dispatch of v64::unpack')
+        return arms
+    grab('varintFastArmIndices', lambda: [int(a[0]) for a in varint_arms()])
+    grab('varintFastArmThresholds', lambda: [int(a[1]) for a in varint_arms()])
+    grab('varintFastArmSizes', lambda: [int(a[2]) for a in varint_arms()])
+    def varint_literals():
+        # the numeric literals of unpack_slow and unpack_size, in source order
+        pats = [r'while idx \+ 1 < bytes && buf\[idx\] & (\d+) != 0 \{',
+                r'ret \|= \(buf\[idx\] as u64 & (\d+)\) << shl;\s*idx \+= 1;\s*shl \+= (\d+);',
+                r'if !buf\.is_empty\(\) && buf\[idx\] & (\d+) == 0 \{\s*ret \|= \(buf\[idx\] as u64 & (\d+)\) << shl;\s*idx \+= 1;',
+                r'let mut result = \(buf\[SZ - 1\] as u64\) << \((\d+) \* \(SZ - 1\)\);\s*let mut offset = (\d+);',
+                r'for b in buf\.iter\(\)\.take\(SZ - 1\) \{\s*result \+= \(\*b as u64 - (0x[0-9a-fA-F]+|\d+)\) << offset;\s*offset \+= (\d+);']
+        out_ = []
+        for pat in pats:
+            m = re.findall(pat, vi)
+            if len(m) != 1:
+                raise Missing('varint decoder line: ' + pat[:40])
+            g = m[0] if isinstance(m[0], tuple) else (m[0],)
+            out_ += [int(x, 0) for x in g]
+        if not re.search(r'let mut ret = 0u64;\s*let mut idx = 0;\s*let mut shl = 0;', vi):
+            raise Missing('unpack_slow initial state')
+        return out_
+    grab('varintCodeLiterals', varint_literals)
+    def varint_pack_literals():
+        # the numeric literals of v64::pack_sz and v64::pack, in source order
+        pats = [r'let mut count: usize = (\d+);\s*x >>= (\d+);\s*while x > 0 \{\s*x >>= (\d+);\s*count \+= (\d+);\s*\}\s*count',
+                r'out\[0\] = \(x & (0x[0-9a-fA-F]+|\d+)\) as u8;\s*x >>= (\d+);\s*let mut idx: usize = (\d+);\s*while x > 0 \{\s*out\[idx - 1\] \|= (\d+);\s*out\[idx\] = \(x & (0x[0-9a-fA-F]+|\d+)\) as u8;\s*idx \+= (\d+);\s*x >>= (\d+);\s*\}']
+        out_ = []
+        for pat in pats:
+            m = re.findall(pat, vi)
+            if len(m) != 1:
+                raise Missing('varint encoder lines: ' + pat[:40])
+            out_ += [int(x, 0) for x in m[0]]
+        return out_
+    grab('varintPackLiterals', varint_pack_literals)
     def result_tags():
         ok = re.findall(r'Ok\(x\) => (?:\{\s*)?stack_pack\(v64::from\((\d+)\)\)', bt)
         er = re.findall(r'Err\(e\) => (?:\{\s*)?stack_pack\(v64::from\((\d+)\)\)', bt)
